@@ -17,7 +17,7 @@ RULES = {
     "A1": coord.rule_A1, "A2": coord.rule_A2, "A3": coord.rule_A3, "A4": coord.rule_A4,
     "A5": coord.rule_A5, "A6": coord.rule_A6, "A7": coord.rule_A7,
     "F1": tables.rule_F1, "F2": tables.rule_F2, "F3": tables.rule_F3, "F4": tables.rule_F4, "F5": tables.rule_F5,
-    "F6": tables.rule_F6, "F7": tables.rule_F7, "F8": tables.rule_F8, "F9": tables.rule_F9,
+    "F6": tables.rule_F6, "F7": tables.rule_F7, "F8": tables.rule_F8, "F9": tables.rule_F9, "F10": tables.rule_F10,
     "C1": deadline.rule_C1,
     "C2": deadline.rule_C2,
     "C3": deadline.rule_C3,
